@@ -622,6 +622,11 @@ theorem step_refines (up_idem : ∀ k, up (up k) = up k) {s : Store V} (h : Inv 
       have h2 : odGet s (up k) = none := by
         unfold odHas at hx; cases hg : odGet s (up k) <;> simp [hg] at hx ⊢
       simp [step, stepSpec, foldOp, odMoveToEnd, h1, h2]
+  | moveToEndBytes k last =>
+    simp only [excluded] at hx
+    have h2 : odGet s (up k) = none := by
+      unfold odHas at hx; cases hg : odGet s (up k) <;> simp [hg] at hx ⊢
+    simp [step, stepSpec, foldOp, odMoveToEnd, h2]
   | keys => rfl
   | values => rfl
   | items => rfl
@@ -701,6 +706,31 @@ theorem dictEq_iff {s t : Store V} (hs : (odKeys s).Nodup) (ht : (odKeys t).Nodu
     exact odGet_of_mem s hs p.1 p.2 hp
 
 end eqmap
+
+/-! ## the driver's instance of `up`: ASCII upper-casing is idempotent -/
+theorem upperC_idem (c : Char) : upperC (upperC c) = upperC c := by
+  unfold upperC
+  by_cases h : 'a' ≤ c ∧ c ≤ 'z'
+  · simp only [h, and_self, if_true]
+    have h1 : 97 ≤ c.toNat := by
+      have := h.1; rw [Char.le_def, UInt32.le_iff_toNat_le] at this; exact this
+    have h2 : c.toNat ≤ 122 := by
+      have := h.2; rw [Char.le_def, UInt32.le_iff_toNat_le] at this; exact this
+    have hv : (Char.ofNat (c.toNat - 32)).toNat = c.toNat - 32 := by
+      have : (c.toNat - 32).isValidChar := by left; omega
+      rw [Char.ofNat, dif_pos this]
+      show (UInt32.ofNatLT _ _).toNat = _
+      simp [UInt32.toNat_ofNatLT]
+    have : ¬ ('a' ≤ Char.ofNat (c.toNat - 32) ∧ Char.ofNat (c.toNat - 32) ≤ 'z') := by
+      intro ⟨g, _⟩
+      rw [Char.le_def, UInt32.le_iff_toNat_le] at g
+      have : (97 : Nat) ≤ (Char.ofNat (c.toNat - 32)).toNat := g
+      omega
+    simp [this]
+  · simp [h]
+
+theorem upper_idem' (k : Str) : upper (upper k) = upper k := by
+  simp [upper, List.map_map, Function.comp_def, upperC_idem]
 
 end CDict
 end ICal
